@@ -47,3 +47,11 @@ S("C01", "docs", "F12-recursive-value-chain-binary", (_d(("q", None, False, [("e
 S("C17", "graphs", "F13-slots-with-empty-dict", (("slotsdict", ("s", 3), []), {}), "fixed 0152072")
 S("C17", "graphs", "F13-slots-with-dict", (("l", [("slotsdict", ("s", 3), [("name", ("s", "x"))]), ("slotsdict", ("l", []), [])]), {}), "fixed 0152072")
 print("ok4")
+
+# ---- third build session
+S("C05", "parsed", "F15-flow-indicator-shorthand-text", ("!, ", 6), "fixed 6326f9e")
+S("C05", "wellformed", "F15-flow-indicator-shorthand", ([_doc(("seq", False, None, True, True, [("scalar", False, "!a,b[c]", (False, False), "x", None), ("scalar", False, "tag:yaml.org,2002:a,b", (False, False), "y", None)]))], {}), "fixed 6326f9e")
+S("C08", "members", "F16-sexagesimal-overflow", "1" + ":00" * 180 + ".5", "fixed 41882dc")
+S("C08", "members", "F16-sexagesimal-overflow-neg", "-1" + ":59" * 200 + ".0", "fixed 41882dc")
+S("C08", "members", "F16-sexagesimal-zero-digits", "0" + ":00" * 200 + ".5", "fixed 41882dc")
+print("ok5")
